@@ -35,6 +35,17 @@ pub enum LK {
     Kb,
 }
 
+/// A user type that has a dependency of its own (what an *inlined* container of it depends on).
+#[derive(TS, Serialize, Deserialize, Clone, Debug, PartialEq, Eq, Hash, PartialOrd, Ord)]
+#[ts(crate = "ts_rs")]
+pub struct LW {
+    pub inner: LU,
+}
+
+fn lw(x: u8) -> LW {
+    LW { inner: lu(x) }
+}
+
 fn lu(x: u8) -> LU {
     LU { x }
 }
@@ -45,6 +56,8 @@ pub struct LibEntry {
     pub name: Result<String, String>,
     pub inline: Result<String, String>,
     /// `TS::IS_OPTION` and the name of `TS::OptionInnerType`: what `#[ts(optional)]` / `optional_fields` go by
+    /// names of `TS::dependencies()`: what the inlined spelling depends on
+    pub deps: Vec<String>,
     pub is_option: bool,
     pub option_inner_name: Result<String, String>,
     pub samples: Vec<Result<Value, String>>,
@@ -92,6 +105,7 @@ macro_rules! entry {
         LibEntry {
             rust: stringify!($t), family: $fam,
             name: guarded(|| <$t as TS>::name()), inline: guarded(|| <$t as TS>::inline()),
+            deps: { let mut d: Vec<String> = guarded(|| <$t as TS>::dependencies()).unwrap_or_default().into_iter().map(|d| d.ts_name).collect(); d.sort(); d.dedup(); d },
             is_option: <$t as TS>::IS_OPTION, option_inner_name: guarded(|| <<$t as TS>::OptionInnerType as TS>::name()),
             samples: { let vals: Vec<$t> = vec![$($v),*]; ser(&vals) },
             roundtrip: Some(rt::<$t>),
@@ -104,6 +118,7 @@ macro_rules! entry {
         LibEntry {
             rust: stringify!($t), family: $fam,
             name: guarded(|| <$t as TS>::name()), inline: guarded(|| <$t as TS>::inline()),
+            deps: { let mut d: Vec<String> = guarded(|| <$t as TS>::dependencies()).unwrap_or_default().into_iter().map(|d| d.ts_name).collect(); d.sort(); d.dedup(); d },
             is_option: <$t as TS>::IS_OPTION, option_inner_name: guarded(|| <<$t as TS>::OptionInnerType as TS>::name()),
             samples: { let vals: Vec<$t> = vec![$($v),*]; ser(&vals) },
             roundtrip: None,
@@ -116,6 +131,7 @@ macro_rules! entry {
         LibEntry {
             rust: stringify!($t), family: $fam,
             name: guarded(|| <$t as TS>::name()), inline: guarded(|| <$t as TS>::inline()),
+            deps: { let mut d: Vec<String> = guarded(|| <$t as TS>::dependencies()).unwrap_or_default().into_iter().map(|d| d.ts_name).collect(); d.sort(); d.dedup(); d },
             is_option: <$t as TS>::IS_OPTION, option_inner_name: guarded(|| <<$t as TS>::OptionInnerType as TS>::name()),
             samples: vec![], roundtrip: None,
             generics: generics_of::<$t>(), expect_generics: vec![$($g),*],
@@ -293,6 +309,15 @@ pub fn table(thorough: bool) -> Vec<LibEntry> {
     t.push(entry!(sd "nested-arg" 2 HashMap<Rc<LK>, Vec<LU>>, [hm(vec![(Rc::new(LK::Kb), vec![lu(2)])])], gen ["LK", "LU"]));
     t.push(entry!(sd "nested-arg" 2 BTreeMap<Cow<'static, LK>, Box<LU>>, [bm(vec![(Cow::Owned(LK::Ka), Box::new(lu(3)))])], gen ["LK", "LU"]));
     t.push(entry!(sd "nested-arg" 2 HashSet<Box<LK>>, [[Box::new(LK::Ka)].into_iter().collect()], gen ["LK"]));
+    // element types with a dependency of their own: an inlined container depends on what the inlined element mentions -
+    // unless it has no element (`[T; 0]` is `[]`)
+    t.push(entry!(sd "inlined-deps" 2 Vec<LW>, [vec![lw(1)]], gen ["LW"]));
+    t.push(entry!(sd "inlined-deps" 2 [LW; 2], [[lw(1), lw(2)]], gen ["LW"]));
+    t.push(entry!(sd "inlined-deps" 2 [LW; 0], [[]], gen []));
+    t.push(entry!(sd "inlined-deps" 2 Option<[LW; 0]>, [Some([]), None], gen []));
+    t.push(entry!(sd "inlined-deps" 2 [[LW; 0]; 2], [[[], []]], gen []));
+    t.push(entry!(sd "inlined-deps" 2 HashMap<String, Option<LW>>, [hm(vec![("k".to_string(), Some(lw(1)))])], gen ["LW"]));
+    t.push(entry!(sd "inlined-deps" 2 Result<Box<LW>, [LW; 0]>, [Ok(Box::new(lw(1))), Err([])], gen ["LW"]));
     t.push(entry!(sd "nested-arg" 2 BTreeSet<Vec<LK>>, [[vec![LK::Ka, LK::Kb]].into_iter().collect()], gen ["LK"]));
     t.push(entry!(sd "nested-arg" 2 (Box<LU>, Cow<'static, LK>), [(Box::new(lu(1)), Cow::Owned(LK::Kb))], gen ["LK", "LU"]));
     t.push(entry!(sd "nested-arg" 2 (u8, Vec<LU>, Option<LK>), [(1, vec![lu(1)], None)], gen ["LK", "LU"]));
@@ -327,7 +352,7 @@ pub fn table(thorough: bool) -> Vec<LibEntry> {
 
 fn env_for(log: &mut Log) -> Env {
     let mut env = Env::new();
-    for d in [guarded(LU::decl), guarded(LK::decl), guarded(<serde_json::Value as TS>::decl)] {
+    for d in [guarded(LU::decl), guarded(LK::decl), guarded(LW::decl), guarded(<serde_json::Value as TS>::decl)] {
         match d {
             Ok(text) => match parse::parse_decl(&text) {
                 Ok(p) => env.add(p),
@@ -468,9 +493,16 @@ pub fn c12(args: &Args, log: &mut Log) {
             checked += 1;
             let mut free = std::collections::BTreeSet::new();
             it.free_names(&std::collections::BTreeSet::new(), &mut free);
-            let named: Vec<&String> = free.iter().filter(|n| ["LU", "LK"].contains(&n.as_str())).collect();
+            let named: Vec<&String> = free.iter().filter(|n| ["LU", "LK", "LW"].contains(&n.as_str()) && !(n.as_str() == "LU" && e.family == "inlined-deps")).collect();
             if !named.is_empty() {
                 fails.push(json!({"kind": "inline-names-an-argument", "reason": format!("inline() = {:?} refers to {named:?} by name", e.inline.as_ref().ok())}));
+            }
+            // ... and `dependencies()` is exactly what the inlined spelling mentions
+            checked += 1;
+            let mentioned: Vec<String> = free.iter().filter(|n| ["LU", "LK", "LW"].contains(&n.as_str())).cloned().collect();
+            let listed: Vec<String> = e.deps.iter().filter(|n| ["LU", "LK", "LW"].contains(&n.as_str())).cloned().collect();
+            if mentioned != listed {
+                fails.push(json!({"kind": "inline-dependencies", "reason": format!("inline() = {:?} mentions {mentioned:?}, dependencies() lists {listed:?}", e.inline.as_ref().ok())}));
             }
         }
         // the key type of a keyed object must be something TypeScript can index with (string / number / literals of those):
